@@ -1,6 +1,7 @@
 package sym
 
 import (
+	"crypto/sha256"
 	"time"
 	"fmt"
 	"regexp"
@@ -309,6 +310,16 @@ func (e *Exec) envPatternIntrinsic(fn *ssa.Function, name string) Intrinsic {
 	}
 	// text rendering of protobuf messages (reflection based): an opaque string, only ever used for events and logs
 	switch name {
+	case "github.com/cosmos/cosmos-sdk/x/auth/types.NewModuleAddress":
+		// sha256 (assembly) of a concrete name: computed natively (address.Module without derivation keys)
+		return func(e *Exec, st *State, fn *ssa.Function, args []Value, depth int) []Outcome {
+			name, ok := args[0].(string)
+			if !ok {
+				unsupported("NewModuleAddress of a symbolic name")
+			}
+			h := sha256.Sum256([]byte(name))
+			return ret1(st, e.stringToBytes(st, string(h[:20])))
+		}
 	case "(github.com/cosmos/cosmos-sdk/types.Coins).String", "(github.com/cosmos/cosmos-sdk/types.Coin).String":
 		// coins with symbolic amounts render to an opaque string (events, logs, error texts); concrete ones natively
 		return func(e *Exec, st *State, fn *ssa.Function, args []Value, depth int) []Outcome {
